@@ -104,6 +104,17 @@ func (w *World) ContractKind(key string) string {
 // ShortKey abbreviates a canonical function key the way unit names do.
 func ShortKey(key string) string { return shortKey(key) }
 
+// UnitInFiles reports whether the unit's function is declared in one of the module-relative files.
+func (w *World) UnitInFiles(u *Unit, files []string) bool {
+	pos := w.Prog.Fset.Position(u.Fn.Pos())
+	for _, f := range files {
+		if strings.HasSuffix(pos.Filename, "/"+f) {
+			return true
+		}
+	}
+	return false
+}
+
 // SweepUnits lists every function of the given module-relative files that has a body, contract or not.
 func (w *World) SweepUnits(files []string) []*Unit {
 	var out []*Unit
